@@ -190,7 +190,8 @@ template <typename PH, int OP> void s_dims(Ctx& c) {
   int m = rnd(1, 3); Variable v(rnd(0, n - 1));
   Variables_Set fold_vs; for (int i = 0; i < n; ++i) if (i != (int) v.id() && coin()) fold_vs.insert(Variable(i));
   PFunc pf = rpfunc(n);
-  Constraint_System wcs; if (coin()) wcs.insert(pplx::rand_con(n, false));
+  Constraint_System wcs;   // the guard of wrap_assign may only mention wrapped variables
+  if (coin() && !vs.empty()) { Variable wv(*vs.begin()); wcs.insert(wv >= rnd(-3, 0)); if (coin()) wcs.insert(wv <= rnd(1, 200)); }
   c.run([&] {
     switch (OP) {
     case EMBED: p.add_space_dimensions_and_embed(m); break;
